@@ -59,13 +59,15 @@ fn thread_alive(tid: i32) -> bool {
     std::path::Path::new(&format!("/proc/self/task/{tid}")).exists()
 }
 
-/// (state letter, current syscall number) of a thread of this process
-fn thread_kstate(tid: i32) -> (char, i64) {
+/// (state letter, current syscall number, first syscall argument) of a thread of this process
+fn thread_kstate(tid: i32) -> (char, i64, u64) {
     let st = std::fs::read_to_string(format!("/proc/self/task/{tid}/stat")).unwrap_or_default();
     let state = st.rsplit(')').next().and_then(|r| r.trim().chars().next()).unwrap_or('?');
     let sc = std::fs::read_to_string(format!("/proc/self/task/{tid}/syscall")).unwrap_or_default();
-    let nr = sc.split_whitespace().next().and_then(|t| t.parse::<i64>().ok()).unwrap_or(-1);
-    (state, nr)
+    let mut it = sc.split_whitespace();
+    let nr = it.next().and_then(|t| t.parse::<i64>().ok()).unwrap_or(-1);
+    let a0 = it.next().and_then(|t| u64::from_str_radix(t.trim_start_matches("0x"), 16).ok()).unwrap_or(0);
+    (state, nr, a0)
 }
 
 impl SchedHook for Ctl {
@@ -159,22 +161,34 @@ impl Ctl {
             let (ng, to) = self.cv.wait_timeout(g, Duration::from_micros(300)).unwrap();
             g = ng;
             if to.timed_out() {
-                for i in running {
+                // sample the kernel state of the running participants WITHOUT holding the controller's
+                // lock: a participant that is merely waiting for that lock (to park or to report its
+                // exit) must not be mistaken for one blocked inside the library
+                let tids: Vec<(usize, i32)> = running.iter().filter(|i| g.parts[**i].state == PState::Running).map(|i| (*i, g.parts[*i].tid)).collect();
+                drop(g);
+                let own = &self.inner as *const _ as u64;
+                let samples: Vec<(usize, bool, char, i64, u64)> = tids.iter().map(|(i, tid)| {
+                    let alive = thread_alive(*tid);
+                    let (st, nr, a0) = if alive { thread_kstate(*tid) } else { ('?', -1, 0) };
+                    (*i, alive, st, nr, a0)
+                }).collect();
+                g = self.inner.lock().unwrap();
+                for (i, alive, st, nr, a0) in samples {
                     if g.parts[i].state != PState::Running {
                         continue;
                     }
-                    let tid = g.parts[i].tid;
-                    if !thread_alive(tid) {
+                    if !alive {
                         g.parts[i].state = PState::Exited;
                         g.parts[i].point = None;
                         continue;
                     }
-                    let (st, nr) = thread_kstate(tid);
-                    // 202 = futex (x86-64): waiting for a lock / join we do not control
-                    if st == 'S' && (nr == 202 || nr == 449) {
+                    // 202 = futex (x86-64): waiting for a lock / join we do not control - unless it is
+                    // the controller's own mutex (futex word inside `self.inner`)
+                    let on_own_lock = a0 >= own && a0 < own + 64;
+                    if st == 'S' && (nr == 202 || nr == 449) && !on_own_lock {
                         let c = suspicious.entry(i).or_insert(0);
                         *c += 1;
-                        if *c >= 4 {
+                        if *c >= 6 {
                             g.parts[i].state = PState::Blocked;
                         }
                     } else {
@@ -209,7 +223,7 @@ impl Ctl {
                     g.parts[i].state = PState::Exited;
                     break;
                 }
-                let (st, nr) = thread_kstate(tid);
+                let (st, nr, _) = thread_kstate(tid);
                 if st == 'S' && (nr == 202 || nr == 449) {
                     still += 1;
                     if still >= 3 {
